@@ -294,10 +294,14 @@ operator/ (mpz_class v1, mpz_class v2)
       neg = ! neg;
     }
 
-  if (neg)
-    v1 = v1 + (v2 - 1);
+  // Floor division: when the exact quotient is negative and there is a
+  // remainder, round the magnitude up.  This can't overflow, because a
+  // non-zero remainder implies the divisor is at least 2.
+  uint64_t q = v1.m_u / v2.m_u;
+  if (neg && v1.m_u % v2.m_u != 0)
+    ++q;
 
-  mpz_class ret {v1.m_u / v2.m_u, signedness::unsign};
+  mpz_class ret {q, signedness::unsign};
   if (neg)
     ret = -ret;
 
@@ -310,6 +314,17 @@ operator% (mpz_class v1, mpz_class v2)
   if (v2.m_u == 0)
     int_error (describe_div_0 (v1, v2, '%'));
 
-  mpz_class d = v1 / v2;
-  return v1 - v2 * d;
+  // Work on magnitudes, so that no intermediate result can overflow.  The
+  // result takes the sign of the divisor (this goes with floor division).
+  bool neg1 = v1 < 0;
+  bool neg2 = v2 < 0;
+  uint64_t a = neg1 ? (-v1).m_u : v1.m_u;
+  uint64_t b = neg2 ? (-v2).m_u : v2.m_u;
+
+  uint64_t r = a % b;
+  if (r != 0 && neg1 != neg2)
+    r = b - r;
+
+  mpz_class ret {r, signedness::unsign};
+  return neg2 ? -ret : ret;
 }
